@@ -592,7 +592,7 @@ fn op_try_unwrap(a: u8) {
                 Some(b) if b.freed => {},
                 _ => v!("C13", "P-unwrap", "try_unwrap returned Ok but the allocation of object #{} was not released", id),
             }
-            if hk::buffer(64).contains(&addr) {
+            if hk::buffer_first() == addr || safe_buffer().map_or(true, |b| b.contains(&addr)) {
                 v!("C13", "P-unwrap", "try_unwrap returned Ok but the released allocation of object #{} is still buffered", id);
             }
             // The value now belongs to the harness: drop it (its fields release their handles)
@@ -950,6 +950,9 @@ pub fn step(op: Op) -> StepOutcome {
     c.episodes.set(0);
     c.fin_mark.set(c.fin_events.get());
     c.drop_mark.set(c.drop_events.get());
+    for o in c.model.borrow_mut().objs.iter_mut() {
+        o.upgraded_in_dtor = false;
+    }
     let r = catch_unwind(AssertUnwindSafe(|| apply(op)));
     unwind_fix_stack(0);
     drain_alloc();
@@ -1194,7 +1197,13 @@ fn post_op(op: Op, faulted: bool) {
         v!("C11", "P-intro", "allocated_bytes() = {} but the managed allocations that exist total {} bytes", ab, alloc::live_box_bytes());
         return;
     }
-    let buf = hk::buffer(64);
+    let buf = match safe_buffer() {
+        Ok(b) => b,
+        Err(e) => {
+            v!("C11", "P-intro", "{}", e);
+            return;
+        },
+    };
     let bc = state::buffered_objects_count().unwrap_or(usize::MAX);
     if bc != buf.len() {
         v!("C11", "P-intro", "buffered_objects_count() = {} but the buffer holds {} objects", bc, buf.len());
@@ -1540,7 +1549,7 @@ pub fn canonical_key(out: &mut Vec<u8>) {
     let c = ctx();
     let m = c.model.borrow();
     let n = m.objs.len();
-    let buf = hk::buffer(64);
+    let buf = safe_buffer().unwrap_or_default();
     let mut name = [0xFFu8; MAXOBJ];
     let mut order: Vec<u8> = Vec::with_capacity(n);
     fn visit(m: &Model, start: u8, name: &mut [u8; MAXOBJ], order: &mut Vec<u8>) {
